@@ -215,7 +215,7 @@ func cmdCheck(args []string) int {
 				// a kind-restricted property takes only obligations explicitly tagged with it
 				keep := false
 				for _, dc := range pc.DescContains {
-					if strings.Contains(ob.Desc, dc) {
+					if strings.HasPrefix(ob.Kind, "inv-") && strings.Contains(ob.Desc, dc) {
 						keep = true
 					}
 				}
